@@ -13,6 +13,28 @@ use std::io::ErrorKind;
 
 const MIB: usize = 1 << 20;
 
+fn hash_file_both(v: u8, path: &std::path::Path, back: &[u8]) -> (String, String) {
+    if v == 5 {
+        (
+            match tlsh::hash_file(path) {
+                Ok(h) => h.to_string(),
+                Err(tlsh::GeneratorOrIOError::GeneratorError(e)) => format!("Err({e:?})"),
+                Err(tlsh::GeneratorOrIOError::IOError(e)) => format!("IOError({:?})", e.kind()),
+            },
+            render::<tlsh::Tlsh>(&tlsh::hash_buf(back)),
+        )
+    } else {
+        with_kind!(v, K => (
+            match <K as Kind>::hash_file(path) {
+                Ok(h) => h.to_string(),
+                Err(tlsh::GeneratorOrIOError::GeneratorError(e)) => format!("Err({e:?})"),
+                Err(tlsh::GeneratorOrIOError::IOError(e)) => format!("IOError({:?})", e.kind()),
+            },
+            render::<<K as Kind>::H>(&<K as Kind>::hash_buf(back)),
+        ))
+    }
+}
+
 pub fn one(path: &str) -> String {
     let p = std::path::Path::new(path);
     match tlsh::hash_file(p) {
@@ -42,12 +64,36 @@ pub fn main(dir: &str, seed: u64) -> (i32, Value) {
         } else {
             r.fill(&mut data);
         }
-        let path = std::path::Path::new(dir).join(format!("f{i}_{sz}.bin"));
+        // file names: plain, with spaces / non-ASCII, and NOT valid UTF-8 (paths are byte strings on this platform)
+        let fname: std::ffi::OsString = match i % 4 {
+            1 => format!("f {i} \u{e9}\u{4e2d} {sz}.bin").into(),
+            2 => {
+                use std::os::unix::ffi::OsStringExt;
+                let mut b = format!("f{i}_{sz}_").into_bytes();
+                b.extend_from_slice(&[0xff, 0xfe, 0x80, b'.', b'b']);
+                std::ffi::OsString::from_vec(b)
+            }
+            _ => format!("f{i}_{sz}.bin").into(),
+        };
+        let path = std::path::Path::new(dir).join(fname);
         std::fs::write(&path, &data).expect("write scratch file");
         fed += sz as u64;
         let back = std::fs::read(&path).expect("read back");
         for v in 0..6u8 {
-            let (got, want) = if v == 5 {
+            // every other file is hashed on a thread with a small stack (192 KiB): the helpers must not need megabytes of stack
+            let small_stack = i % 2 == 1;
+            let (got, want) = if small_stack {
+                let p2 = path.clone();
+                let b2 = &back;
+                std::thread::scope(|sc| {
+                    std::thread::Builder::new()
+                        .stack_size(192 * 1024)
+                        .spawn_scoped(sc, move || hash_file_both(v, &p2, b2))
+                        .expect("spawn small-stack thread")
+                        .join()
+                        .unwrap_or_else(|_| ("PANIC on a small-stack thread".to_string(), String::new()))
+                })
+            } else if v == 5 {
                 (
                     match tlsh::hash_file(&path) {
                         Ok(h) => h.to_string(),
